@@ -546,8 +546,7 @@ parser! {
             InitialValueAssignmentKind::EnumeratedValues(
               EnumeratedValuesInitializer {
                 values: values.values,
-                // TODO initial value
-                initial_value: None,
+                initial_value: Some(spec_init.1),
             })
           },
         }
@@ -1095,9 +1094,10 @@ parser! {
     rule transition_name() -> Id = identifier()
     rule steps() -> Vec<Id> = name:step_name() {
       vec![name]
-    } / tok(TokenType::LeftParen) _ n1:step_name() _ tok(TokenType::Comma) _ n2:step_name() _ nr:(tok(TokenType::Comma) _ n:step_name()) ** _ _ tok(TokenType::RightParen) {
-      // TODO need to extend with nr
-      vec![n1, n2]
+    } / tok(TokenType::LeftParen) _ n1:step_name() _ tok(TokenType::Comma) _ n2:step_name() _ nr:(tok(TokenType::Comma) _ n:step_name() { n }) ** _ _ tok(TokenType::RightParen) {
+      let mut steps = vec![n1, n2];
+      steps.extend(nr);
+      steps
     }
     // TODO add simple_instruction_list , fbd_network, rung
     rule transition_condition() -> ExprKind =  tok(TokenType::Assignment) _ expr:expression() _ tok(TokenType::Semicolon) { expr }
@@ -1375,7 +1375,7 @@ parser! {
     rule param_assignment() -> ParamAssignmentKind = not:(tok(TokenType::Not) {})? _ src:variable_name() _ tok(TokenType::RightArrow) _ tgt:variable() {
       ParamAssignmentKind::Output (
         Output{
-        not: false,
+        not: not.is_some(),
         src,
         tgt,
       })
